@@ -215,6 +215,13 @@ def scenarios(ctx, thorough):
                 for meet in (("C_done", "NC_done") if drv == "netconf" else ("C_done",)):
                     for rd in ((40, 300) if thorough else (40,)):
                         scns.append({"driver": drv, "state": st, "closes": 2, "closebeh": cb, "readdelay_us": rd, "before": "", "after": "", "meet": meet})
+    # a transport whose Read polls (short deadline, comes back empty-handed): the read loop sees the done signal at once and the
+    # close is the orderly one - the transport's Close never runs under a Read
+    for drv in ("generic", "network", "netconf"):
+        for st in ("idle", "data-arriving", "after-timeout-op"):
+            for rd in (300, 900):          # grace period 90 ms / 810 ms: far beyond any scheduling hiccup (40 us would give 1.6 ms)
+                for rep in range(4 if thorough else 3):
+                    scns.append({"driver": drv, "state": st, "closes": 1 + rep % 2, "closebeh": "eof", "readdelay_us": rd, "before": "", "after": "", "poll": True})
     # the built-in transports under the same contract (real telnet over loopback, standard SSH against the in-process server)
     for tr in ("telnet", "standard"):
         for st in ("idle", "inflight", "eof"):
